@@ -69,7 +69,9 @@ class Harness {
       this.lastStderr = r.stderr ? r.stderr.toString().slice(-6000) : ''
       this.lastStatus = r.status
       if (r.stderr && r.stderr.length) this.stderrAll = (this.stderrAll || '') + r.stderr.toString().slice(-20000)
-      const out = r.stdout ? r.stdout.toString('utf8').split('\n').filter(l => l.length) : []
+      // (line by line: the whole response stream of a batch can exceed node's maximum string length)
+      const out = []
+      if (r.stdout && r.stdout.length) { let from = 0; const buf = r.stdout; while (from < buf.length) { let nl = buf.indexOf(10, from); if (nl < 0) nl = buf.length; if (nl > from) out.push(buf.toString('utf8', from, nl)); from = nl + 1 } }
       const got = out.slice(news.length)
       let n = 0
       for (; n < got.length && n < pending.length; n++) {
